@@ -1,4 +1,5 @@
 import KeepVerif.Model.C38
+import KeepVerif.Gen.C38
 /-!
 # C38 — wallet and group registries survive restarts exactly
 -/
@@ -571,6 +572,27 @@ theorem memory_refines_storage (wallet : Bool) (ops : List Op) :
     intro s t u h1 h2
     exact ih _ _ _ (sync_step wallet t s op h1) (syncR_step wallet u s op h2)
 
+/-- T1 lock-set / call-order facts, regenerated from the source on every run (astfacts.GuardedBy,
+    astfacts.CallOrder): every access to the storage handle and to the cache inside
+    registerSigner / archiveWallet / getSigners / RegisterGroup / UnregisterStaleGroups happens while
+    the registry mutex is held, and the archival precedes the removal from memory. This is what makes
+    a whole registry operation one atomic step of the model. -/
+theorem lockset_facts :
+    (Gen.C38.registerSignerHoldsMutex && Gen.C38.archiveWalletHoldsMutex &&
+     Gen.C38.getSignersHoldsMutex && Gen.C38.registerGroupHoldsMutex &&
+     Gen.C38.unregisterStaleHoldsMutex && Gen.C38.unregisterArchivesBeforeDelete &&
+     Gen.C38.archiveWalletArchivesBeforeDelete) = true := by decide
+
+/-- concurrency: with every operation atomic under the registry mutex (`lockset_facts`), a
+    concurrent execution of any number of threads is one of the interleavings `sched` of their
+    operations — and for every such schedule memory refines storage at quiescence (with the two
+    torn-fault exceptions, none of which a fault-free concurrent run has). -/
+theorem all_schedules_refine (wallet : Bool) (threads : List (List Op)) (sched : List Op)
+    (_hsched : sched.Perm threads.flatten) :
+    Sync (tornOf sched) (finalState wallet {} sched) ∧
+    SyncR (tornSaveOf sched) (finalState wallet {} sched) :=
+  memory_refines_storage wallet sched
+
 /-- without torn faults since the last load, memory = storage exactly (per wallet, before any
     restart); after a restart always (`restart_exact`). -/
 theorem memory_equals_storage (wallet : Bool) (ops : List Op)
@@ -669,21 +691,60 @@ theorem stepOk_model (wallet : Bool) (t : List Nat) (s : St) (hs : Sync t s) (op
         obtain ⟨a, b⟩ := arch_plain wallet s w hk (hs w hk hnt)
         simp [snapSigners_eq, a, b]
       · rfl
+    have second : (if f == Fault.failBefore then
+        sameSet (snapSigners (step wallet s (.arch w f)).1.cache w) (snapSigners s.cache w) else true) = true := by
+      split
+      · rename_i hf
+        have : f = .failBefore := by simpa using hf
+        subst this
+        have e : (step wallet s (.arch w .failBefore)).1 = s := by
+          simp only [step]; split <;> rfl
+        rw [e]; exact sameSet_refl _
+      · rfl
     cases wallet
-    · simp only [stepOk, first, Bool.true_and, Bool.false_and]; simp
+    · simp only [stepOk, first, second, Bool.true_and, Bool.false_and]; simp
     · by_cases h : (step true s (.arch w f)).2 = .ok
       · obtain ⟨_, h2, h3, _⟩ := archive_removes s w f h
-        simp only [stepOk, first, h, snapSigners_eq]
+        simp only [stepOk, first, second, Bool.true_and]
+        simp only [h, snapSigners_eq]
         simp [h2, h3]
       · by_cases he : (step true s (.arch w f)).2 = .eArch ∨ (step true s (.arch w f)).2 = .eNf
         · have hc := step_arch_err_cache s w f he
-          simp only [stepOk, first, Bool.true_and]
+          simp only [stepOk, first, second, Bool.true_and]
           simp only [hc, sameSet_refl]
           rcases he with he | he <;> simp [he]
         · have h1 : ¬ (step true s (.arch w f)).2 = .eArch := fun x => he (Or.inl x)
           have h2 : ¬ (step true s (.arch w f)).2 = .eNf := fun x => he (Or.inr x)
-          simp only [stepOk, first, Bool.true_and]
+          simp only [stepOk, first, second, Bool.true_and]
           simp [h, h1, h2]
+
+theorem signersOf_ne_of_known {c : Cache} (hwf : WF c) {w : Nat} (hk : known c w = true) :
+    (signersOf c w).isEmpty = false := by
+  unfold signersOf
+  cases hf : c.find? (·.1 == w) with
+  | none =>
+    simp only [known, List.any_eq_true] at hk
+    obtain ⟨e, he, hw⟩ := hk
+    exact absurd hw (by simpa using List.find?_eq_none.1 hf e he)
+  | some e =>
+    have := hwf.2 e (List.mem_of_find?_eq_some hf)
+    cases h : e.2 with
+    | nil => exact absurd h this
+    | cons a r => simp [h]
+
+theorem syncOk_model (t : List Nat) (s : St) (hs : Sync t s) :
+    syncOk t s.cache (restartSt s).cache = true := by
+  simp only [syncOk, List.all_eq_true]
+  intro w _
+  by_cases ht : w ∈ t
+  · simp [ht]
+  · by_cases he : (snapSigners s.cache w).isEmpty = true
+    · simp [he]
+    · have hk := known_of_signersOf (c := s.cache) (w := w) (by simpa [snapSigners_eq] using he)
+      have hd := hs w hk ht
+      have hk' : known (restartSt s).cache w = true := by rw [(restart_exact s w).2]; exact hd
+      have := signersOf_ne_of_known (wf_load s.disk) (w := w) (by simpa [restartSt] using hk')
+      simp [snapSigners_eq, restartSt, this]
 
 /-- `holdsTrace` (the monitor) accepts what the model does on every history, for both registries. -/
 theorem holds_model_from (wallet : Bool) (ops : List Op) (t : List Nat) (s : St) (hs : Sync t s) :
@@ -700,7 +761,7 @@ theorem holds_model_from (wallet : Bool) (ops : List Op) (t : List Nat) (s : St)
       cases op2
       case restart =>
         simp only [run, holdsTrace, Bool.and_eq_true] at ih' ⊢
-        exact ⟨by simpa [step] using h2, ih'⟩
+        exact ⟨⟨by simpa [step] using h2, by simpa [step] using syncOk_model _ _ hs'⟩, ih'⟩
       all_goals
         simp only [run, holdsTrace, Bool.and_eq_true] at ih' ⊢
         exact ⟨h1, ih'⟩
